@@ -104,7 +104,10 @@ def structured():
     out += [("mroot", ("int", 2), 2), ("mroot", ("int", 10), 3), ("pi",), ("mpow", ("pi",), 2), ("mpow", ("pi",), -1), ("mroot", ("pi",), 2),
             ("mdiv", ("pi",), ("int", 180)), ("mmul", ("mroot", ("int", 2), 2), ("mroot", ("int", 8), 2)), ("mpow", ("mroot", ("int", 3), 2), 2),
             ("mdiv", ("int", 1250), ("int", 381)), ("mdiv", ("int", 5), ("int", 9)), ("mpow", ("pi",), 20), ("mpow", ("pi",), -20),
-            ("mroot", ("mpow", ("int", 2), 3), 2), ("mroot", ("mpow", ("int", 7), 5), 3), ("mmul", ("mpow", ("int", 2), 3), ("mroot", ("int", 3), 2))]
+            ("mroot", ("mpow", ("int", 2), 3), 2), ("mroot", ("mpow", ("int", 7), 5), 3), ("mmul", ("mpow", ("int", 2), 3), ("mroot", ("int", 3), 2)),
+            # rational powers with large numerators (the order root-then-power vs power-then-root matters for the error)
+            ("mroot", ("mpow", ("int", 2), 101), 2), ("mroot", ("mpow", ("int", 3), 101), 2), ("mroot", ("mpow", ("int", 2), 64), 7), ("mroot", ("mpow", ("int", 2), 21), 2),
+            ("mroot", ("mpow", ("int", 5), 33), 4), ("mpow", ("mroot", ("int", 7), 3), 50), ("mroot", ("mpow", ("int", 2), -75), 2), ("mroot", ("mpow", ("int", 10), 41), 3)]
     return out
 
 
@@ -135,6 +138,9 @@ def classify(m):
         if k != "pi" and v >= 1:
             intpart[k] = Fraction(v.numerator // v.denominator)
     return is_int, is_rat, num, den, intpart
+
+
+WORST = []
 
 
 def run(chk, which="C11"):
@@ -279,9 +285,22 @@ def run(chk, which="C11"):
                         elif exact_fr is not None:
                             # every multiplication by a rounded base contributes: the budget grows with the total power
                             npow = sum(abs(v.numerator) + v.denominator - 1 for v in m.values())
-                            tol_ulps = (2 + npow // 1024) if tname != "long double" else (16 + npow)
+                            # long double is the library's own working type, so its error is the accumulated one.  Measured on the
+                            # unmodified tree: powers of two are exact, pi^k drifts by about 0.45*k ulp (pi itself is rounded), other
+                            # primes by at most k/4 ulp once the power no longer fits the 64-bit mantissa (repeated squaring), a root
+                            # adds at most one.  The budget keeps a third above those slopes and does NOT grow with the numerator for
+                            # base 2, so a change that takes the root first (error multiplied by the numerator) is seen.
+                            if tname != "long double":
+                                tol_ulps = 2 + npow // 1024
+                            else:
+                                tol_ulps = Fraction(3)
+                                for b_, e_ in m.items():
+                                    n_ = abs(e_.numerator)
+                                    tol_ulps += (1 if e_.denominator > 1 else 0) + (Fraction(3, 4) * n_ + 1 if b_ == "pi" else (0 if b_ == 2 else Fraction(2, 5) * n_))
                             u = ulp(tname, exact_fr)
                             err_ = abs(got_v - exact_fr)
+                            pi_pow = abs(m.get("pi", Fraction(0)))
+                            WORST.append((float(err_ / u), tname, float(pi_pow), npow, expr[:80]))
                             ok = err_ <= u * tol_ulps
                             if not ok:
                                 chk.violation(f"C11|get_value|{key}", msg=f"get_value<{tname}>({expr[:250]}) = {info['val']} is {float(err_ / u):.3g} ulp from the exact value")
